@@ -268,6 +268,83 @@ def build_abbrev_file(variant):
     return g.ElfFile(units)
 
 
+LOC_ATTRS = ["DW_AT_location", "DW_AT_data_member_location", "DW_AT_frame_base", "DW_AT_static_link", "DW_AT_return_addr",
+             "DW_AT_use_location", "DW_AT_vtable_elem_location", "DW_AT_segment", "DW_AT_data_location"]
+STRLEN_KEY = "locattr-not-interpreted:DW_AT_string_length"
+LOCATTR_ITEMS = {"attrval": ("attribute (pos == 1) value", "entry ?TAG_variable"),
+                 "attrval_raw": ("attribute (pos == 1) value", "raw entry ?TAG_variable"),
+                 "attr_elem_labels": ("attribute (pos == 1) value elem label", "entry ?TAG_variable")}
+for _a in LOC_ATTRS:
+    LOCATTR_ITEMS["at_" + _a[6:]] = ("@" + _a[3:], "entry ?" + _a[3:])
+LOCATTRBAT = Battery(LOCATTR_ITEMS)
+
+
+def build_locattr_file(version):
+    """Every location-class attribute stored as an expression and as a list pointer, in the forms of this DWARF version."""
+    eform = "DW_FORM_exprloc" if version >= 4 else "DW_FORM_block1"
+    ptr = g.secptr_form(version, 4)
+    e1 = [(OPN("fbreg"), -24), (OPN("deref"),)]
+    kids, model = [], []
+    for an in LOC_ATTRS:
+        variants = [("expr", A(an, eform, e1), [(0, (1 << 64) - 1, e1)])]
+        if version < 4:
+            variants.append(("expr-block2", A(an, "DW_FORM_block2", [(OPN("reg5"),)]), [(0, (1 << 64) - 1, [(OPN("reg5"),)])]))
+        if an not in ("DW_AT_data_member_location", "DW_AT_data_location"):
+            ll = g.LocList([("pair", 0x10, 0x20, [(OPN("reg5"),)]), ("pair", 0x20, 0x30, [(OPN("breg5"), 0)])])
+            variants.append(("list", A(an, ptr, ll), None))
+        for vn, attr, ranges in variants:
+            d_ = D("DW_TAG_variable", [A("DW_AT_name", "DW_FORM_string", b"v%d" % len(kids)), attr])
+            kids.append(d_)
+            model.append((d_, an, vn, attr.value, ranges))
+    root = g.cu_root(b"la.c", version=version, low_pc=0, children=kids)
+    return g.ElfFile([g.Unit(root, version, 4)]), model
+
+
+def locattr_expected(elf, model):
+    fid = 1
+    e = {k: [] for k in LOCATTR_ITEMS}
+    per_attr = {a: 0 for a in LOC_ATTRS}
+    for i, (die, an, vn, val, ranges) in enumerate(model):
+        if ranges is None:
+            ranges = [(lo, hi, ops) for (lo, hi, ops) in val.ranges(0)]
+        elems = [canon_elem(lo, hi, len(ops), k) for k, (lo, hi, ops) in enumerate(ranges)]
+        dc = dwmodel.die_canon(fid, die, False, (), i + 1)      # the root is entry 0
+        dr = dwmodel.die_canon(fid, die, True, (), i + 1)
+        e["attrval"].append((dc, elems))
+        e["attrval_raw"].append((dr, elems))
+        e["attr_elem_labels"].append((dc, ["c:DW_OP_:%d@0" % op[0] for (_, _, ops) in ranges for op in ops]))
+        e["at_" + an[6:]].append((dc, elems))
+    return e
+
+
+def strlen_check(d, version, path):
+    """DW_AT_string_length is of location class too (DWARF 2-4: block / list pointer).  The tool does not decode it (recorded
+    finding): it shows a block as its bytes and refuses a list pointer.  Anything else than that, or than correct location
+    elements, is a fresh violation."""
+    eform = "DW_FORM_exprloc" if version >= 4 else "DW_FORM_block1"
+    e1 = [(OPN("fbreg"), -24), (OPN("deref"),)]
+    ll = g.LocList([("pair", 0x10, 0x20, [(OPN("reg5"),)])])
+    kids = [D("DW_TAG_variable", [A("DW_AT_name", "DW_FORM_string", b"s0"), A("DW_AT_string_length", eform, e1)]),
+            D("DW_TAG_variable", [A("DW_AT_name", "DW_FORM_string", b"s1"), A("DW_AT_string_length", g.secptr_form(version, 4), ll)])]
+    elf = g.ElfFile([g.Unit(g.cu_root(b"sl.c", version=version, low_pc=0, children=kids), version, 4)])
+    elf.write(path)
+    rs = d.batch(["open id=d1 path=" + drv.hx(path), drv.run_cmd("entry (pos == 1) @AT_string_length", i="d1", lim=5),
+                  drv.run_cmd("entry (pos == 2) @AT_string_length", i="d1", lim=5), "close id=d1"])
+    bad = []
+    for k, r, good, known in ((0, rs[1], [canon_elem(0, (1 << 64) - 1, 2, 0)], lambda r: version < 4 and len(r.results()) == 1 and r.results()[0].startswith("[c:hex:")),
+                              (1, rs[2], [canon_elem(0x10, 0x20, 1, 0)], lambda r: not r.results() and r.first("e") is not None
+                               and b"DW_AT_string_length not handled" in drv.unhx(r.first("e")))):
+        if r.crash:
+            bad.append(("strlen:%d:%d|crash" % (version, k), "DW_AT_string_length (DWARF %d, %s): died %s" % (version, ["expression", "list"][k], r.crash[0])))
+        elif r.results() == good and not r.first("e"):
+            continue
+        elif known(r):
+            bad.append((STRLEN_KEY, "DW_AT_string_length stored as %s (DWARF %d) is not decoded as a location: %r" % (["a block", "a list pointer"][k], version, r.lines[:2])))
+        else:
+            bad.append(("strlen:%d:%d" % (version, k), "DW_AT_string_length (DWARF %d, %s) yields %r, expected %r" % (version, ["expression", "list"][k], r.lines[:3], good)))
+    return bad
+
+
 def growth_strings(k):
     """Restricted growth strings of length k: every way to let k units share abbreviation tables."""
     out = [[0]]
@@ -353,6 +430,12 @@ def _worker(d, chunk, extra):
             elf.write(path)
             exp = loc_expected(elf, model, version, osz)
             nq, nr, bad = dwbattery.run_file(d, LOCBAT, elf, path, exp)
+        elif kind == "locattrs":
+            elf, model = build_locattr_file(arg)
+            elf.write(path)
+            nq, nr, bad = dwbattery.run_file(d, LOCATTRBAT, elf, path, locattr_expected(elf, model))
+            for key, what in strlen_check(d, arg, path):
+                out["bad"].append((key, what, {"kind": kind, "arg": arg, "qid": key}))
         else:
             elf = build_abbrev_file(arg) if kind == "abbrev" else build_share_file(arg)
             elf.write(path)
@@ -387,6 +470,7 @@ def main(ctx):
     maxlen = 4 if thorough else 3
     tasks += [[("lists", (v, o, maxlen, lp))] for v in (2, 3, 4, 5) for o in ((4, 8) if thorough else (4,)) for lp in (0, 0x400000)]
     tasks += [[("abbrev", k)] for k in range(64 if thorough else 32)]
+    tasks += [[("locattrs", v)] for v in (2, 3, 4, 5)]
     kshare = 5 if thorough else 4
     tasks += [list(c) for c in common.chunks((("share", a) for a in share_cases(kshare)), 20)]
     for r in common.pmap(ctx, _worker, tasks, bins["zwdrv"], "full", timeout=300, cmd_timeout=120):
@@ -402,7 +486,7 @@ def main(ctx):
         "evaluations": n, "distinct_nontrivial": n,
         "rule": "state = one generated file (location attributes: every opcode of the menu at boundary operands, alone / second / in triples; lists with 0-3 ranges and base entries; "
                 "abbreviation layouts: private / shared / unshared tables, indirect forms); every battery query result is compared with the generator's model; distinct = results compared",
-        "bounds": {"versions": [2, 3, 4, 5], "op_menu_entries": len(op_menu(5)), "abbrev_variants": 64 if thorough else 32,
+        "bounds": {"versions": [2, 3, 4, 5], "op_menu_entries": len(op_menu(5)), "abbrev_variants": 64 if thorough else 32, "location_class_attributes": LOC_ATTRS,
                    "abbrev_sharing": "every way for 2..%d units to share tables (restricted growth strings) x every placement order of the tables in .debug_abbrev" % kshare,
                    "location_lists": {"entry_alphabet": [e[:3] if e[0] != "default" else e[:1] for e in list_alphabet(5)], "max_entries": maxlen, "unit_low_pc": [0, 0x400000]}},
     }
